@@ -48,7 +48,7 @@ def defaults(nodes):
 def reference(tree, toks, parsable):
     lead = []
     for t in toks:
-        if t == "--" or t.startswith("-") or t == "":
+        if t == "--" or t.startswith("-"):
             break
         lead.append(t)
     path = []
@@ -103,7 +103,9 @@ class Env(object):
 
 def lines_for(tree, rng):
     """(tokens, shape) pairs."""
-    out = [([], "empty"), (["--"], "dd-only"), (["zzz"], "unknown"), (["zzz", tree[0]["name"]], "unknown+valid")]
+    out = [([], "empty"), (["--"], "dd-only"), (["zzz"], "unknown"), (["zzz", tree[0]["name"]], "unknown+valid"),
+           # an empty token (app "" ...) is a leading token like any other: it names no command
+           ([""], "empty-token-only"), (["", tree[0]["name"]], "empty-token+valid")]
     top = [n["name"] for n in tree if n["kind"] != "disabled"]
     allpaths = list(T.walk(tree))
     for p, n in allpaths:
@@ -159,6 +161,8 @@ def lines_for(tree, rng):
                     out.append((names + fill + [rng.choice(top)], "path+ancestor-sibling"))
                 out.append((names + fill + ["--"] + [rng.choice(top)] + ["-x", "--zz"], "path+dd-tail"))
                 out.append((["--"] + names, "dd+path"))
+                out.append((names + [""], "path+empty-token"))
+                out.append((names + ["", "--unknownopt"], "path+empty-token+unknown-option"))
                 out.append((names + ["--unknownopt"], "path+unknown-option"))
         # disabled / anonymous names are not names
     for n in tree:
